@@ -105,11 +105,16 @@ fn exec(ctx: &mut Ctx, arena: &Arena, h: &[u8], kinds: &[u16], part: &'static st
             let ra: Vec<usize> = a.by_ref().map(off).collect();
             let rc: Vec<usize> = c.map(off).collect();
             let after = a.next().is_some();
-            (cnt, last, lo, hi, nths, skips, first, ra, rc, after)
+            // a drained handle stays drained for every adapter; after one next() the adapters see the rest
+            let drained = (a.clone().last().is_none(), a.clone().count(), a.clone().nth(0).is_none());
+            let mut b = hd_.iter();
+            let _ = b.next();
+            let rest1 = (b.clone().count(), b.clone().last().map(off), b.fold(0usize, |x, _| x + 1));
+            (cnt, last, lo, hi, nths, skips, first, ra, rc, after, drained, rest1)
         });
         match r {
             Out::Panic => ctx.violation(&format!("c11/{}/adapters/spurious-panic", part), || "count/last/size_hint/nth/skip/clone panicked on a well-formed header".into()),
-            Out::Val((cnt, last, lo, hi, nths, skips, first, ra, rc, after)) => {
+            Out::Val((cnt, last, lo, hi, nths, skips, first, ra, rc, after, drained, rest1)) => {
                 let n = wanto.len();
                 let mut bad = vec![];
                 if cnt != n { bad.push(format!("count() = {}", cnt)); }
@@ -122,6 +127,9 @@ fn exec(ctx: &mut Ctx, arena: &Arena, h: &[u8], kinds: &[u16], part: &'static st
                 all.extend(first);
                 all.extend(ra.iter().copied());
                 if all != wanto || (first.is_some() && ra != rc) || after { bad.push(format!("next + rest = {:?}, clone after first = {:?}, next after None = {}", all, rc, after)); }
+                if drained != (true, 0, true) { bad.push(format!("drained handle: (last() is None, count(), nth(0) is None) = {:?}", drained)); }
+                let want_rest1 = (n.saturating_sub(1), if n >= 2 { wanto.last().copied() } else { None }, n.saturating_sub(1));
+                if rest1 != want_rest1 { bad.push(format!("after one next(): (count(), last(), fold count) = {:?}, expected {:?}", rest1, want_rest1)); }
                 if !bad.is_empty() {
                     ctx.violation(&format!("c11/{}/adapters", part), || format!("reference walk has {} tags at offsets {:?}; {}", n, wanto.iter().take(12).collect::<Vec<_>>(), bad.join("; ")));
                 }
